@@ -64,6 +64,14 @@ fn respell_const(r: &mut Rng, c: f64) -> Exp {
 
 /// re-spell coefficients: `k * e`, `e * k`, `e / k` with `k` written differently (or the operands swapped)
 fn respell(r: &mut Rng, e: &Exp) -> Exp {
+    // `e / k`  <->  `e * (1/k)` for divisors whose reciprocal is exact
+    if let Exp::BinOp(BinOp::Div, a, b) = e {
+        if let Exp::Number(k) = **b {
+            if [2.0, -2.0, 4.0, 0.5, -0.5, -1.0, 1.0, -4.0].contains(&k) && r.chance(1, 2) {
+                return Exp::BinOp(BinOp::Mul, Box::new(respell(r, a)), Box::new(Exp::Number(1.0 / k)));
+            }
+        }
+    }
     let mut go = |x: &Exp| Box::new(respell(r, x));
     match e {
         Exp::Number(_) | Exp::Variable(_) => e.clone(),
@@ -108,7 +116,7 @@ fn respell_case(r: &mut Rng) -> Option<Case> {
             match r.below(3) { 0 => Exp::Max(vec![a, b]), 1 => Exp::Min(vec![a, b]), _ => Exp::Abs(Box::new(a)) }
         };
         let k = *r.pick(&[-2.0, -1.0, -3.0, 2.0, -0.5]);
-        let scaled = Exp::BinOp(BinOp::Mul, Box::new(Exp::Number(k)), Box::new(piece(r)));
+        let scaled = if r.chance(1, 3) { Exp::BinOp(BinOp::Div, Box::new(piece(r)), Box::new(Exp::Number(*r.pick(&[2.0, 4.0, -2.0])))) } else { Exp::BinOp(BinOp::Mul, Box::new(Exp::Number(k)), Box::new(piece(r))) };
         let mut cons = m.constraints().clone();
         let mut obj = m.objective().rhs.clone();
         if r.chance(2, 3) { cons.push(Constraint::new(scaled, gen_model::comparison(r), Exp::Number(gen_model::constant(r, false)), String::new())); }
